@@ -12,7 +12,8 @@ def fmtSym (name : String) : String :=
   | "add" => "+" | "sub" => "-" | "mul" => "*" | "div" => "/" | "mod" => "%" | "pow" => "^"
   | "join" => "⋈" | "ljoin" => "⟕" | "rjoin" => "⟖" | "fjoin" => "⟗" | "semi" => "⋉" | "anti" => "▷"
   | "union" => "∪" | "inter" => "∩" | "diff" => "∖" | "symdiff" => "Δ" | "subset" => "⊆" | "superset" => "⊇"
-  | "psubset" => "⊊" | "psuperset" => "⊋" | "elem" => "∈" | "notelem" => "∉" | _ => "?"
+  | "psubset" => "⊊" | "psuperset" => "⊋" | "elem" => "∈" | "notelem" => "∉"
+  | "matmul" => "**" | "dot" => "·" | "cross" => "⨯" | "solve" => "\\" | _ => "?"
 
 open Formula in
 mutual
